@@ -331,6 +331,22 @@ def build_units(tier: str) -> list[Unit]:
             else:
                 units.append(Unit(f"encode/{cname}/{tag}", encode_harness(cname, cls, alts)))
     units.append(Unit("db/insert_scan_result", db_harness))
+    # the last hop of the statement: what insert_scan_result enqueues for the response column is
+    # the complete hex form of response.pdu (units of C11, executed from the real AST) - with
+    # A-exact (response.pdu == received bytes) the stored string is what the ECU sent
+    from . import c11
+    for cname in ("RawPositiveResponse", "NegativeResponse", "ReadDataByIdentifierResponse",
+                  "ReadMemoryByAddressResponse", "RoutineControlResponse"):
+        cls = getattr(S, cname, None)
+        if cls is None or cname not in iso.RESPONSES:
+            continue
+        for alts in c11.resp_alternatives(cls):
+            if "none" in alts.values():
+                continue
+            tag = ",".join(f"{k}={v}" for k, v in alts.items())
+            units.append(Unit(f"db/insert/response/{cname}/{tag}",
+                              c11.insert_harness("response", cname, cls, alts),
+                              setup=c11.install_db, allow_empty=True))
     import os
     from pyvc import crosscheck
     from .c01 import random_arg
@@ -414,6 +430,9 @@ def native_replay(unit: str, obligation: str, model: dict) -> tuple[bool, str]:
         return False, f"{base} not evaluated: {sorted(res)}"
     if unit.startswith("encode/"):
         return native_encode(unit, base, model)
+    if unit.startswith("db/insert/"):
+        from . import c11
+        return c11.native_replay(unit[3:], obligation, model)
     return False, "no native replay for this unit"
 
 
@@ -468,6 +487,8 @@ def native_encode(unit: str, base: str, model: dict) -> tuple[bool, str]:
 
 
 def native_search(unit: str, obligation: str, seed: int) -> dict | None:
+    if unit.startswith("db/insert/"):
+        return {}
     base = obligation.split("(")[0]
     rnd = random.Random(seed * 31 + 7)
     t_end = time.time() + 6
